@@ -22,6 +22,9 @@ from ..session import find_calls
 from ..summaries import canon, deref_val, opt_some, opt_none
 
 
+NORMALISERS = ("strip_prefix", "components", "canonicalize", "normalize", "normalise", "absolutize", "clean")
+
+
 def run_from_block(ex, fn, bb):
     """execute `fn` from basic block `bb` with every local symbolic (one arbitrary state of the loop)"""
     st = State()
@@ -146,10 +149,34 @@ def entry_step(ses, rep):
             r, m = ses.obligation(f"entry/path{pi}/worker-gets-this-path", pc, z3.BoolVal(not ok), "the worker closure captures the entry's path")
             if r == "sat":
                 flagged.append((f"entry/path{pi}/worker-gets-this-path", "the worker is given another path than the entry's", "select", {}))
-        r, m = ses.obligation(f"entry/path{pi}/recorded-in-seen_files-iff-new", pc, z3.BoolVal(bool(ins)) != z3.Not(F["seen"]) if not errored or ins else z3.BoolVal(False),
-                              "the path is inserted into seen_files exactly when it was not there")
+        r, m = ses.obligation(f"entry/path{pi}/recorded-in-seen_files-iff-new", pc, z3.And(z3.Not(F["seen"]), z3.BoolVal(not ins)) if not errored or ins else z3.BoolVal(False),
+                              "a path that was not in seen_files is inserted (HashSet::insert of a present key is a no-op)")
         if r == "sat":
             flagged.append((f"entry/path{pi}/recorded-in-seen_files-iff-new", "seen_files is not updated for a new path (it can be processed twice)", "dedup", {}))
+    # the de-duplication key does not depend on how the path is spelled: the walk of `.` yields `./a.lua`, the argument may say `a.lua`
+    keyed = 0
+    for pi, o in enumerate(outs):
+        ins = [t for t in o.trace if t[0] == "effect" and t[1] == "seen_files.insert"]
+        if o.kind not in ("return", "loopbound") or not ins or keyed:
+            continue
+        keyed += 1
+        from . import c02
+        P = c02.Prov(ex, o)
+        prov = P.of(ins[0][2][0])
+        norm = False
+        for oid_ in prov:
+            hc = ex.havoc_calls.get(oid_)
+            if not hc:
+                continue
+            last = hc[0].split("::")[-1]
+            g = ex.resolve(hc[0])
+            if last in NORMALISERS or (g is not None and any(re.search(r"::(" + "|".join(NORMALISERS) + r")\b", s_[2]) for sts in g.blocks.values() for s_ in sts if s_[0] == "call")):
+                norm = True
+        r, m = ses.obligation("entry/dedup-key-is-spelling-independent", list(o.pc), z3.BoolVal(not norm),
+                              "the key recorded in seen_files is a normal form of the path (a leading `./` does not make another file)")
+        if r == "sat":
+            flagged.append(("entry/dedup-key-is-spelling-independent", "seen_files is keyed by the path exactly as spelled: `./a.lua` (from walking `.`) and `a.lua` (named) "
+                            "are processed as two files", "dedup-key", {}))
     rep.bounds["entry_paths"] = n
     if n == 0 or seen_dispatch != {True, False}:
         raise Inconclusive(f"walker loop: {n} paths, dispatch outcomes {seen_dispatch}")
@@ -210,7 +237,12 @@ def ignore_lookup(ses, rep):
         ms = find_calls(o.trace, lambda n_: n_.endswith("matched_path_or_any_parents") or n_.endswith("Gitignore::matched"))
         ok, why = True, ""
         if not ms:
-            ok, why = False, "no .styluaignore matcher is consulted"
+            # `not ignored` without asking: only for a path a root test (starts_with / has_root ..) has put outside the matcher's directory
+            inner = deref_val(ex, o.state, v.fields[0])
+            root_tests = [t for t in o.trace if t[0] == "havoc" and t[1].split("::")[-1] in ("starts_with", "has_root", "is_absolute", "is_relative", "strip_prefix")
+                          and path.oid in P.of((t[4] if len(t) > 4 else t[2])[0])]
+            if not (isinstance(inner, Sym) and z3.is_false(z3.simplify(inner.t)) and root_tests):
+                ok, why = False, "no .styluaignore matcher is consulted"
         for c in ms:
             snap = c[4] if len(c) > 4 else c[1]
             gi = P.of(snap[0])
@@ -222,6 +254,17 @@ def ignore_lookup(ses, rep):
                 ok, why = False, "the matcher is taken from state passed in by the caller"
             if path.oid not in P.of(snap[1]):
                 ok, why = False, "the matcher is asked about another path"
+        # the `ignore` crate's contract: matched_path_or_any_parents panics for a path that is absolute and not under the matcher's root
+        for ci, c in enumerate(ms):
+            if not c[0].endswith("matched_path_or_any_parents") if isinstance(c[0], str) else False:
+                continue
+            tests = [t for t in o.trace if t[0] == "havoc" and t[1].split("::")[-1] in ("starts_with", "has_root", "is_absolute", "is_relative", "strip_prefix")
+                     and path.oid in P.of((t[4] if len(t) > 4 else t[2])[0])]
+            oid2 = f"ignore-lookup/path{pi}/call{ci}/path-under-the-matcher-root"
+            r, m = ses.obligation(oid2, list(o.pc), z3.BoolVal(not tests), "contract: matched_path_or_any_parents requires a path that is relative or under the ignore file's directory")
+            if r == "sat":
+                flagged.append((oid2, "path_is_stylua_ignored hands any path to Gitignore::matched_path_or_any_parents, which panics for an absolute path outside the "
+                                      "ignore file's directory", "ignore-root", {}))
         oid = f"ignore-lookup/path{pi}/matcher-of-this-path"
         r, m = ses.obligation(oid, list(o.pc), z3.BoolVal(not ok), "ignored(path) = get_ignore(dir(path)).matched(path)")
         if r == "sat":
@@ -267,7 +310,7 @@ def setup(ses, rep):
 # ------------------------------------------------------------------------------------------------ replay
 U, F_ = clireplay.UNFORMATTED, clireplay.FORMATTED
 TREE = {"a.lua": U, "b.txt": U, ".hidden.lua": U, "sub/c.lua": U, "sub/.dot/e.lua": U, "vendor/d.lua": U, "vendor/keep.lua": U, ".styluaignore": "vendor/\n!vendor/keep.lua\n",
-        "sub/.styluaignore": "skipme.lua\n", "sub/skipme.lua": U, "notes.md": "local   x   =   1\n", "sub/readme.txt": U}
+        "sub/.styluaignore": "skipme.lua\n", "sub/skipme.lua": U, "notes.md": "local   x   =   1\n", "sub/readme.txt": U, "other/z.lua": U}
 
 
 def fmt(r):
@@ -275,23 +318,40 @@ def fmt(r):
 
 
 SCENARIOS = [
-    ("walk", ["."], ["a.lua", "sub/c.lua"]),
-    ("walk-allow-hidden", ["--allow-hidden", "."], [".hidden.lua", "a.lua", "sub/.dot/e.lua", "sub/c.lua"]),
+    ("walk", ["."], ["a.lua", "other/z.lua", "sub/c.lua"]),
+    ("walk-allow-hidden", ["--allow-hidden", "."], [".hidden.lua", "a.lua", "other/z.lua", "sub/.dot/e.lua", "sub/c.lua"]),
     ("explicit-ignored", ["vendor/d.lua"], ["vendor/d.lua"]),
     ("explicit-ignored-respect", ["--respect-ignores", "vendor/d.lua"], []),
     ("explicit-non-lua", ["b.txt"], ["b.txt"]),
     ("explicit-non-lua-respect", ["--respect-ignores", "b.txt"], []),
     ("explicit-nested-ignore-respect", ["--respect-ignores", "sub/skipme.lua"], []),
     ("explicit-nested-ignore", ["sub/skipme.lua"], ["sub/skipme.lua"]),
-    ("overlapping", [".", "a.lua", "sub", "sub/c.lua", "a.lua"], ["a.lua", "sub/c.lua"]),
+    ("overlapping", [".", "a.lua", "sub", "sub/c.lua", "a.lua"], ["a.lua", "other/z.lua", "sub/c.lua"]),
     ("glob", ["-g", "*.txt", "."], ["b.txt", "sub/readme.txt"]),
     ("dir-and-ignored-file", ["sub", "vendor/d.lua"], ["sub/c.lua", "vendor/d.lua"]),
     ("dir-then-explicit-non-lua-inside", ["sub", "sub/readme.txt"], ["sub/c.lua", "sub/readme.txt"]),
     ("explicit-non-lua-then-dir", ["sub/readme.txt", "sub"], ["sub/c.lua", "sub/readme.txt"]),
-    ("cwd-then-explicit-non-lua", [".", "b.txt"], ["a.lua", "b.txt", "sub/c.lua"]),
+    ("cwd-then-explicit-non-lua", [".", "b.txt"], ["a.lua", "b.txt", "other/z.lua", "sub/c.lua"]),
     ("respect-several-dirs", ["--respect-ignores", "a.lua", "sub/skipme.lua", "sub/c.lua"], ["a.lua", "sub/c.lua"]),
     ("respect-several-dirs-reversed", ["--respect-ignores", "sub/skipme.lua", "sub/c.lua", "a.lua"], ["a.lua", "sub/c.lua"]),
     ("respect-nested-then-root-pattern", ["--respect-ignores", "sub/c.lua", "vendor/d.lua"], ["sub/c.lua"]),
+]
+
+
+# (name, argv, cwd inside the tree, files expected to be formatted [relative to the tree root])
+CWD_SCENARIOS = [
+    ("respect-absolute-outside-cwd", ["--respect-ignores", "{ROOT}/a.lua"], "sub", ["a.lua"]),
+    ("respect-absolute-outside-cwd-ignore-only-in-cwd", ["--respect-ignores", "{ROOT}/other/z.lua"], "sub", ["other/z.lua"]),
+    ("stdin-filepath-absolute-outside-cwd", ["--respect-ignores", "--stdin-filepath", "{ROOT}/other/z.lua", "-"], "sub", []),
+    ("respect-absolute-inside-cwd", ["--respect-ignores", "{ROOT}/sub/c.lua", "{ROOT}/sub/skipme.lua"], "sub", ["sub/c.lua"]),
+    ("respect-parent-relative", ["--respect-ignores", "../a.lua"], "sub", ["a.lua"]),
+    ("absolute-outside-cwd", ["{ROOT}/a.lua"], "sub", ["a.lua"]),
+]
+ONCE_SCENARIOS = [
+    ("once-cwd-and-file", [".", "a.lua"], ["a.lua", "other/z.lua", "sub/c.lua"]),
+    ("once-dir-and-dotted-file", ["sub", "./sub/c.lua", "sub/c.lua"], ["sub/c.lua"]),
+    ("once-repeated", ["a.lua", "a.lua", "./a.lua"], ["a.lua"]),
+    ("once-cwd-and-explicit-non-lua", [".", "b.txt"], ["a.lua", "b.txt", "other/z.lua", "sub/c.lua"]),
 ]
 
 
@@ -303,10 +363,22 @@ def battery():
         got = fmt(r)
         if got != sorted(want) or r["rc"] != 0:
             fails.append((name, f"scenario {name} {argv}: formatted {got}, expected {sorted(want)} (rc={r['rc']})", clireplay.describe(r)))
+    for name, argv, cwd, want in CWD_SCENARIOS:
+        r = clireplay.run_cli(binp, TREE, ["--no-editorconfig"] + argv, cwd_rel=cwd, stdin=U if "-" in argv else None)
+        got = fmt(r)
+        if got != sorted(want) or r["rc"] != 0:
+            fails.append((name, f"scenario {name} {argv} (cwd {cwd}): formatted {got}, expected {sorted(want)} (rc={r['rc']}) {r['err'][:160]!r}", clireplay.describe(r)))
+    # processed once: every unformatted file is reported once by --check
+    for name, argv, want in ONCE_SCENARIOS:
+        r = clireplay.run_cli(binp, TREE, ["--no-editorconfig", "--check", "--output-format", "summary"] + argv)
+        listed = sorted(re.sub(r"^\./", "", ln.strip()) for ln in r["out"].splitlines() if ln.strip().endswith((".lua", ".txt")))
+        if listed != sorted(want):
+            fails.append((name, f"scenario {name} {argv}: --check reports {listed}, expected each of {sorted(want)} once", clireplay.describe(r)))
     return fails
 
 
-KIND2SCEN = {"ignore": ["explicit-ignored-respect", "explicit-nested-ignore-respect", "respect-several-dirs", "respect-several-dirs-reversed", "respect-nested-then-root-pattern"],
+KIND2SCEN = {"dedup-key": [s_[0] for s_ in ONCE_SCENARIOS], "ignore-root": [s_[0] for s_ in CWD_SCENARIOS],
+             "ignore": ["explicit-ignored-respect", "explicit-nested-ignore-respect", "respect-several-dirs", "respect-several-dirs-reversed", "respect-nested-then-root-pattern"],
              "setup": ["walk", "walk-allow-hidden", "glob", "overlapping", "dir-and-ignored-file"],
              "dedup": ["overlapping"], "select": [s[0] for s in SCENARIOS]}
 
